@@ -93,20 +93,25 @@ Definition parse_bracket (ts : list token) : ptok (list sopt) :=
   | _ => Some ([], ts)
   end.
 
+(* does the next statement start with the keyword kw ? *)
+Definition kw_head (kw : ident) (ts : list token) : option (list token) :=
+  match ts with
+  | TIdent k :: r => if ident_eqb k kw then Some r else None
+  | _ => None
+  end.
+
 Fixpoint parse_opt_stmts (fuel : nat) (ts : list token) : ptok (list sopt) :=
   match fuel with
   | O => None
   | S f =>
-      match ts with
-      | TIdent k :: r =>
-          if ident_eqb k kw_option then
-            match parse_opt r with
-            | Some (o, TSemi :: r1) =>
-                match parse_opt_stmts f r1 with Some (os, r2) => Some (o :: os, r2) | None => None end
-            | _ => None
-            end
-          else Some ([], ts)
-      | _ => Some ([], ts)
+      match kw_head kw_option ts with
+      | Some r =>
+          match parse_opt r with
+          | Some (o, TSemi :: r1) =>
+              match parse_opt_stmts f r1 with Some (os, r2) => Some (o :: os, r2) | None => None end
+          | _ => None
+          end
+      | None => Some ([], ts)
       end
   end.
 Definition opt_stmts (ts : list token) : ptok (list sopt) := parse_opt_stmts (S (length ts)) ts.
@@ -136,20 +141,24 @@ Definition parse_label (ts : list token) : label * list token :=
   | _ => (LNone, ts)
   end.
 
-Definition parse_stype (ts : list token) : ptok stype :=
+Definition map_head (ts : list token) : option (list token) :=
   match ts with
-  | TIdent k :: TLt :: r =>
-      if ident_eqb k kw_map then
-        match parse_pn r with
-        | Some (kp, TComma :: r1) =>
-            match parse_pn r1 with
-            | Some (vp, TGt :: r2) => Some (SMap kp vp, r2)
-            | _ => None
-            end
-        | _ => None
-        end
-      else None
-  | _ => match parse_pn ts with Some (p, r) => Some (SNamed p, r) | None => None end
+  | TIdent k :: TLt :: r => if ident_eqb k kw_map then Some r else None
+  | _ => None
+  end.
+
+Definition parse_stype (ts : list token) : ptok stype :=
+  match map_head ts with
+  | Some r =>
+      match parse_pn r with
+      | Some (kp, TComma :: r1) =>
+          match parse_pn r1 with
+          | Some (vp, TGt :: r2) => Some (SMap kp vp, r2)
+          | _ => None
+          end
+      | _ => None
+      end
+  | None => match parse_pn ts with Some (p, r) => Some (SNamed p, r) | None => None end
   end.
 
 (* after the comments *)
@@ -213,13 +222,19 @@ Definition parse_method (ts : list token) : ptok smethod :=
 
 (* ------------------------------------------------------------------ elements *)
 (* "kw name {" opens a block; anything else is a field. Fuel: one unit per nesting level. *)
+Definition block_head (ts : list token) : option (ident * ident * list token) :=
+  match ts with
+  | TIdent k :: TIdent name :: TLBrace :: r => Some (k, name, r)
+  | _ => None
+  end.
+
 Fixpoint parse_elem (fuel : nat) (ts : list token) : ptok selem :=
   match fuel with
   | O => None
   | S f =>
       let (c, ts1) := parse_cmt ts in
-      match ts1 with
-      | TIdent k :: TIdent name :: TLBrace :: r =>
+      match block_head ts1 with
+      | Some (k, name, r) =>
           match opt_stmts r with
           | Some (opts, r1) =>
               if ident_eqb k kw_message then
@@ -245,7 +260,7 @@ Fixpoint parse_elem (fuel : nat) (ts : list token) : ptok selem :=
               else None
           | None => None
           end
-      | _ => match parse_field_body c ts1 with Some (fl, r) => Some (SField fl, r) | None => None end
+      | None => match parse_field_body c ts1 with Some (fl, r) => Some (SField fl, r) | None => None end
       end
   end.
 
@@ -271,32 +286,41 @@ Definition unquote (l : list N) : option (list N) :=
   | _ => None
   end.
 
+Definition import_head (ts : list token) : option (list N * list token) :=
+  match ts with
+  | TIdent k :: TLit s :: TSemi :: r => if ident_eqb k kw_import then Some (s, r) else None
+  | _ => None
+  end.
+
 Fixpoint parse_imports (fuel : nat) (ts : list token) : ptok (list (list N)) :=
   match fuel with
   | O => None
   | S f =>
-      match ts with
-      | TIdent k :: TLit s :: TSemi :: r =>
-          if ident_eqb k kw_import then
-            match unquote s with
-            | Some p => match parse_imports f r with Some (ps, r') => Some (p :: ps, r') | None => None end
-            | None => None
-            end
-          else Some ([], ts)
-      | _ => Some ([], ts)
+      match import_head ts with
+      | Some (s, r) =>
+          match unquote s with
+          | Some p => match parse_imports f r with Some (ps, r') => Some (p :: ps, r') | None => None end
+          | None => None
+          end
+      | None => Some ([], ts)
       end
+  end.
+
+Definition fopt_head (ts : list token) : option (ident * token * list token) :=
+  match ts with
+  | TIdent k :: TIdent name :: TEq :: v :: TSemi :: r =>
+      if ident_eqb k kw_option && is_scalar_token v then Some (name, v, r) else None
+  | _ => None
   end.
 
 Fixpoint parse_fopts (fuel : nat) (ts : list token) : ptok (list (ident * token)) :=
   match fuel with
   | O => None
   | S f =>
-      match ts with
-      | TIdent k :: TIdent name :: TEq :: v :: TSemi :: r =>
-          if ident_eqb k kw_option && is_scalar_token v then
-            match parse_fopts f r with Some (os, r') => Some ((name, v) :: os, r') | None => None end
-          else Some ([], ts)
-      | _ => Some ([], ts)
+      match fopt_head ts with
+      | Some (name, v, r) =>
+          match parse_fopts f r with Some (os, r') => Some ((name, v) :: os, r') | None => None end
+      | None => Some ([], ts)
       end
   end.
 
@@ -304,53 +328,57 @@ Fixpoint parse_exts (fuel : nat) (ts : list token) : ptok (list sext) :=
   match fuel with
   | O => None
   | S f =>
-      match ts with
-      | TIdent k :: r =>
-          if ident_eqb k kw_extend then
-            match parse_qname r with
-            | Some (x, TLBrace :: r1) =>
-                match many (S (length r1)) parse_field r1 with
-                | Some (fs, r2) =>
-                    match parse_exts f r2 with
-                    | Some (xs, r3) => Some ({| sx_extendee := x; sx_fields := fs |} :: xs, r3)
-                    | None => None
-                    end
-                | None => None
-                end
-            | _ => None
-            end
-          else Some ([], ts)
-      | _ => Some ([], ts)
+      match kw_head kw_extend ts with
+      | Some r =>
+          match parse_qname r with
+          | Some (x, TLBrace :: r1) =>
+              match many (S (length r1)) parse_field r1 with
+              | Some (fs, r2) =>
+                  match parse_exts f r2 with
+                  | Some (xs, r3) => Some ({| sx_extendee := x; sx_fields := fs |} :: xs, r3)
+                  | None => None
+                  end
+              | None => None
+              end
+          | _ => None
+          end
+      | None => Some ([], ts)
       end
   end.
 
-Definition parse_file (ts : list token) : option sfile :=
-  match snd (parse_cmt ts) with
+(* syntax = "proto3"; package *)
+Definition file_head (ts : list token) : option (list token) :=
+  match ts with
   | TIdent k1 :: TEq :: TLit v :: TSemi :: TIdent k2 :: r =>
-      if ident_eqb k1 kw_syntax && bytes_eqb v lit_proto3 && ident_eqb k2 kw_package then
-        match parse_qname r with
-        | Some (pkg, TSemi :: r1) =>
-            match parse_imports (S (length r1)) r1 with
-            | Some (imps, r2) =>
-                match parse_fopts (S (length r2)) r2 with
-                | Some (fopts, r3) =>
-                    match parse_exts (S (length r3)) r3 with
-                    | Some (exts, r4) =>
-                        match parse_top (S (length r4)) (S (length r4)) r4 with
-                        | Some body =>
-                            Some {| s_pkg := pkg; s_imports := imps; s_fopts := fopts; s_exts := exts; s_body := body |}
-                        | None => None
-                        end
-                    | None => None
-                    end
-                | None => None
-                end
-            | None => None
-            end
-        | _ => None
-        end
-      else None
+      if ident_eqb k1 kw_syntax && bytes_eqb v lit_proto3 && ident_eqb k2 kw_package then Some r else None
   | _ => None
+  end.
+
+Definition parse_file (ts : list token) : option sfile :=
+  match file_head (snd (parse_cmt ts)) with
+  | Some r =>
+      match parse_qname r with
+      | Some (pkg, TSemi :: r1) =>
+          match parse_imports (S (length r1)) r1 with
+          | Some (imps, r2) =>
+              match parse_fopts (S (length r2)) r2 with
+              | Some (fopts, r3) =>
+                  match parse_exts (S (length r3)) r3 with
+                  | Some (exts, r4) =>
+                      match parse_top (S (length r4)) (S (length r4)) r4 with
+                      | Some body =>
+                          Some {| s_pkg := pkg; s_imports := imps; s_fopts := fopts; s_exts := exts; s_body := body |}
+                      | None => None
+                      end
+                  | None => None
+                  end
+              | None => None
+              end
+          | None => None
+          end
+      | _ => None
+      end
+  | None => None
   end.
 
 (* ------------------------------------------------------------------ syntactic file -> descriptor *)
